@@ -3,7 +3,7 @@ TITLE = 'Sequence representations convert losslessly and invert one another'
 CONTRACT_MODULES = ['contracts.utils_c', 'contracts.utils_def_c']
 FUNCTIONS = ['tangermeme.utils.chunk', 'tangermeme.utils.unchunk', 'tangermeme.utils._fast_one_hot_encode', 'tangermeme.utils.one_hot_encode#mapping', 'tangermeme.utils.reverse_complement#tensor']
 BOUNDED = 'bounded.C15'
-BOUNDED_BUDGET = {'quick': 60, 'thorough': 600}
+BOUNDED_BUDGET = {'quick': 120, 'thorough': 600}
 LEVEL = 'other'
 EXPLANATION = ("deductive: chunk (unfold axiom, row offsets per sequence) and unchunk (1, 2 and >= 3 chunk paths, both overlap parities, "
                "running chunk offset over 1-2 sequences): every position covered by a complete chunk is taken from the chunk that owns it - with "
